@@ -434,7 +434,7 @@ func paymentCallbackClause(c *Ctx, regs *Regs, legacy func(r *NativeReg, m strin
 	f := c.P.NewFuncCFG(post)
 	sites := f.CallSites("pkg/core/interop/contract.CallFromNative")
 	if len(sites) == 0 {
-		c.Note("payment-callback", "postTransfer no longer calls CallFromNative")
+		c.Note("payment-callback: postTransfer no longer calls CallFromNative")
 		return
 	}
 	sig := post.Obj.Type().(*types.Signature)
